@@ -368,7 +368,7 @@ func (a *E3) doCall(fn *ssa.Function, instr ssa.Instruction, c *ssa.CallCommon, 
 				a.effect(fn, instr, "clear", a.get(c.Args[0])&oROOTS, 0)
 			}
 		}
-		if res != nil && a.org[res] == 0 && !a.isSpine(res.Type()) && !a.isContainerish(res.Type()) {
+		if res != nil && b.Name() != "append" && !a.isSpine(res.Type()) && !a.isContainerish(res.Type()) {
 			a.set(res, oSCALAR)
 		}
 		return
@@ -421,8 +421,8 @@ func (a *E3) doCall(fn *ssa.Function, instr ssa.Instruction, c *ssa.CallCommon, 
 						o |= a.get(r.Results[0])
 					}
 				}
-				if o == 0 {
-					o = oSCALAR
+				if _, basic := res.Type().Underlying().(*types.Basic); basic {
+					o |= oSCALAR
 				}
 				a.set(res, o)
 			}
@@ -541,8 +541,8 @@ func (a *E3) transfer(fn *ssa.Function, instr ssa.Instruction) {
 			if rg, ok := nx.Iter.(*ssa.Range); ok {
 				if x.Index == 2 {
 					o := a.cell[a.cellOf(rg.X)] | a.get(rg.X)&^(oBARE|oVIAEGO)
-					if o == 0 {
-						o = oUSER
+					if _, basic := x.Type().Underlying().(*types.Basic); basic {
+						o |= oSCALAR
 					}
 					a.set(x, o)
 				} else {
@@ -583,22 +583,18 @@ func (a *E3) transfer(fn *ssa.Function, instr ssa.Instruction) {
 					a.set(x, oELEM)
 				} else {
 					o := a.cell[a.cellOf(addr)]
-					if o == 0 {
-						if _, basic := x.Type().Underlying().(*types.Basic); basic {
-							o = oSCALAR
-						} else {
-							o = a.get(addr.X) &^ (oBARE | oVIAEGO)
-						}
+					if _, basic := x.Type().Underlying().(*types.Basic); basic {
+						o |= oSCALAR
+					} else {
+						o |= a.get(addr.X) &^ (oBARE | oVIAEGO)
 					}
 					a.set(x, o)
 				}
 			default:
 				c := a.cellOf(x.X)
 				a.set(x, a.cell[c])
-				if a.cell[c] == 0 {
-					if _, ok := x.Type().Underlying().(*types.Basic); ok {
-						a.set(x, oSCALAR)
-					}
+				if _, ok := x.Type().Underlying().(*types.Basic); ok {
+					a.set(x, oSCALAR)
 				}
 			}
 		} else {
@@ -657,11 +653,7 @@ func (a *E3) transfer(fn *ssa.Function, instr ssa.Instruction) {
 		}
 		if !a.isContainerish(x.X.Type()) && !a.isSpine(x.X.Type()) {
 			switch x.X.Type().Underlying().(type) {
-			case *types.Slice, *types.Map:
-			case *types.Pointer:
-				if o == 0 {
-					o |= oSCALAR
-				}
+			case *types.Slice, *types.Map, *types.Pointer:
 			default:
 				o |= oSCALAR
 			}
